@@ -61,7 +61,11 @@ pub fn converge_case(cfg: &RingCfg, sim: &mut Sim, obs: &mut Obs) -> CaseResult 
 
 fn join_case(t: &mut Tape, obs: &mut Obs, max_hsa_extra: u64) -> CaseResult {
     let cfg = gen_ring_cfg(t, &GenOpts { min_n: 2, max_n: 5, max_hsa_extra, late_joiners: true });
-    let mut sim = Sim::new(cfg.clone(), 0);
+    let mut sim = Sim::new(cfg.clone(), 1);
+    let passive = crate::apps::add_passive_peers(&mut sim, t);
+    if passive.iter().any(|a| *a < cfg.hsa) {
+        obs.label("passive-stations-inside-gap");
+    }
     let sorted = cfg.sorted_addrs();
     converge_case(&cfg, &mut sim, obs)?;
     if sorted.contains(&(cfg.hsa - 1)) {
@@ -88,7 +92,7 @@ fn join_case(t: &mut Tape, obs: &mut Obs, max_hsa_extra: u64) -> CaseResult {
     obs.label(&format!("schedule-{:?}", cfg.schedule));
     // non-trivial: at least one station joined through a GAP poll (always the case for n >= 2: only one station claims)
     obs.nontrivial(fingerprint(&(format!("{:?}", cfg.baud), &sorted, cfg.hsa, cfg.gap, cfg.slot_bits, format!("{:?}", cfg.schedule), late.len())));
-    obs.sample(|| json!({"config": cfg.describe()}));
+    obs.sample(|| json!({"config": cfg.describe(), "passive_stations": passive}));
     Ok(())
 }
 
